@@ -22,7 +22,7 @@ class C05(ModelCheck):
     def gen(self, rng, tier):
         if tier != 'quick' and rng.random() < 0.002:
             # ultra-long single key (counters far beyond 16 bits); generated inside execute, compared on the final output only
-            return {'ultra': {'n': rng.choice([70000, 131073, 140000, 196609, 262147]), 'window': rng.choice([2, 3, 4, 5]),
+            return {'ultra': {'n': rng.choice([70000, 131073, 140000, 196609, 262147, 1048583 if rng.random() < 0.3 else 70001]), 'window': rng.choice([2, 3, 4, 5]),
                               'stride': rng.choice([1, 2, 3])}, 'program': [], 'events': [], 'end': 'complete'}
         if tier != 'quick' and rng.random() < 0.0003:
             # ultra-dense: more than 1024 windows of one key open at the same time
@@ -78,7 +78,7 @@ class C05(ModelCheck):
         if u is not None and u.get('groups') is not None:
             return isinstance(u['groups'], int) and 1 <= u['groups'] <= 300000 and 1 <= u.get('window', 0) <= 8 and u.get('stride', 0) >= 1
         if u is not None:
-            return (isinstance(u.get('n'), int) and 0 <= u['n'] <= 300000 and u.get('window', 0) >= 1 and u.get('stride', 0) >= 1 and
+            return (isinstance(u.get('n'), int) and 0 <= u['n'] <= 1100000 and u.get('window', 0) >= 1 and u.get('stride', 0) >= 1 and
                     (u['window'] <= 64 or (u['window'] <= 2200 and u['n'] <= 3000)))
         return ModelCheck.valid(self, case)
 
